@@ -128,6 +128,8 @@ def scratch_root():
 
 def cleanup_scratch():
     global _SCRATCH
+    if os.environ.get('RV_KEEP'):
+        return
     if _SCRATCH and os.path.isdir(_SCRATCH):
         shutil.rmtree(_SCRATCH, ignore_errors=True)
     _SCRATCH = None
